@@ -772,6 +772,25 @@ fn check_cmap(cmap: &[u8], problems: &mut Problems) {
                     continue;
                 }
                 let seg = segx2 / 2;
+                // binary-search helper fields
+                let mut es = 0usize;
+                while (1usize << (es + 1)) <= seg {
+                    es += 1;
+                }
+                let sr = 2 * (1usize << es);
+                let got = (be16(sub, 8), be16(sub, 10), be16(sub, 12));
+                if got != (Some(sr as u16), Some(es as u16), Some((2 * seg - sr) as u16)) {
+                    bad(
+                        "cmap4-search-fields",
+                        format!(
+                            "segCount={} searchRange/entrySelector/rangeShift={:?}, expected ({}, {}, {})",
+                            seg, got, sr, es, 2 * seg - sr
+                        ),
+                    );
+                }
+                if be16(sub, 14 + segx2) != Some(0) {
+                    bad("cmap4-reservedPad", format!("{:?}", be16(sub, 14 + segx2)));
+                }
                 let ends = 14;
                 let starts = ends + segx2 + 2;
                 let deltas = starts + segx2;
